@@ -238,6 +238,12 @@ func inAssert(t *Thread, fn *ssa.Function, args []Value, pos token.Pos) Value {
 			r = Unsat
 		}
 	}
+	if e.solver2 != nil && !nc.IsConst && (r == Sat || (r == Unsat && e.crossBudget != nil && *e.crossBudget > 0)) {
+		if r == Unsat {
+			*e.crossBudget--
+		}
+		e.crossCheck(nc, r)
+	}
 	switch r {
 	case Unknown:
 		e.unknowns = append(e.unknowns, "assert "+label+": "+why)
